@@ -123,9 +123,9 @@ PROPS["C05"] = {
     "assumptions": ["closure bodies passed to SharedData::write_fn are outside the proof (N10)", "sequential model of SharedData"],
 }
 PROPS["C06"] = {
-    "units": ["dbfacade", "scalars"],
+    "units": ["dbfacade", "scalars", "engine"],
     "kani": [],
-    "level_text": "Proof on Brc20ProgDatabase::set_tx_receipt: after Ok the transaction row, the receipt row, the (block,index)->hash row and the inscription->hash row all carry the same hash, block hash, block number and index; set_block_hash: number->hash and hash->number invert each other; LogED::new_vec: log indexes run contiguously from the start index and every log carries its transaction's hash, index, block hash and number; get_block_tx_count = number of (block,index) rows of the block; eth_getLogs order (C18).",
+    "level_text": "Proof on Brc20ProgDatabase::set_tx_receipt: after Ok the transaction row, the receipt row, the (block,index)->hash row and the inscription->hash row all carry the same hash, block hash, block number and index; set_block_hash: number->hash and hash->number invert each other; LogED::new_vec: log indexes run contiguously from the start index and every log carries its transaction's hash, index, block hash and number; get_block_tx_count = number of (block,index) rows of the block; add_tx_to_block stores transaction, receipt and trace under get_tx_hash(tx, account nonce) (site precondition) and get_tx_hash is the keccak of sender, nonce, target, data (functional postcondition); eth_getLogs order (C18).",
     "level_note": COMMON_TRUST + "Narrow. Rule N29 keeps only the index arguments of TxReceiptED::new / TxED::new (the other arguments are revm/alloy values). NOT covered: the running start index and cumulative gas handed to these functions (closure in add_tx_to_block), bloom and merkle root (uninterpreted libraries), raw block encodings (alloy RLP), generate_block / generate_raw_block bodies, `receipt returned is the one later served` (engine closure).",
     "assumptions": ["N29: constructors reduced to their index arguments", "generate_block / generate_raw_block not under contract"],
 }
